@@ -210,6 +210,7 @@ impl Property for C10 {
         let io = Io {
             sink: sink.clone(),
             fail_read_at: None,
+            fail_read_sticky: false,
         };
         st.eval();
         let mut opts = Opts::with(USize::ReadFromHeader);
